@@ -117,7 +117,22 @@ class C01(Check):
                     yield (spec, build, (("del", None), ("del", None)), 100, 20, 0)
                 yield (spec, build, (("normal", "1.001"),) * 2, 250, 30, 0)
         yield from self.edge_states()
+        yield from self.noindelpost_states()
         yield from self.shipped_states()
+
+    def noindelpost_states(self):
+        """The documented fallback `--param indelpost=false`: catalogued indels are then matched through the table of
+        equivalent placements instead of being realigned; heterozygous and homozygous carriers, every placement."""
+        spec = worlds.WorldSpec(("+", "-"), True, False, 0, "rich")
+        k = 0
+        for build in ("hg19", "hg38"):
+            for a in ("4.001", "6.001", "7.001", "8.001", "9.001"):
+                for b in ("1.001", a, "2.002"):
+                    for sh in (0, -1, 1):
+                        k += 1
+                        if self.tier == "quick" and k % 3 != self.seed % 3:
+                            continue
+                        yield (spec, build, (("normal", a), ("normal", b)), 100, 20, sh, (("indelpost", False),))
 
     def edge_states(self):
         """Indels and an MNV on the first / last RefSeq bases (the first mapped genome base on one of the strands),
@@ -148,6 +163,8 @@ class C01(Check):
                 yield (("shipped", name), "hg19", pr, 100, 20, 0)
 
     def successors(self, st):
+        if len(st) > 6:
+            return
         spec, build, comps, rl, dp, sh = st
         if spec[0] == "shipped":
             return
@@ -182,6 +199,8 @@ class C01(Check):
             yield ("+1.001", (spec, build, comps + (("extra", "1.001"),), rl, dp, sh))
 
     def canon(self, st):
+        if len(st) > 6:
+            return st
         spec, build, comps, rl, dp, sh = st
         if spec[0] == "shipped":
             return st
@@ -194,7 +213,8 @@ class C01(Check):
         import aldy.cn as cnmod
         from .. import repo
 
-        spec, build, comps, rl, dp, sh = st
+        params = dict(st[6]) if len(st) > 6 else {}
+        spec, build, comps, rl, dp, sh = st[:6]
         repo.reset_debug_store()
         if spec[0] == "shipped":
             return self._eval_shipped(st)
@@ -232,7 +252,7 @@ class C01(Check):
         cnmod.solve_cn_model = wrapped
         try:
             try:
-                res = genotype(ypath, spath, ppath, output_file=None, cn_region=w.neutral(build), genome=build)
+                res = genotype(ypath, spath, ppath, output_file=None, cn_region=w.neutral(build), genome=build, **params)
                 sols = list(res.values())[0]
                 err = None
             except AldyException as ex:
